@@ -1,13 +1,405 @@
-"""Engine B properties (generated modules + generated drivers): filled in below."""
+"""Engine B properties: generated modules compiled by the real compiler and driven by generated
+drivers (C04 C05 C06 C07 C15 C16, and the run-time halves of C02 C03 C13)."""
+import hashlib
+import json
+import os
+import re
+import shutil
 
-CHECKS = {}
+import common
+from common import Inconclusive
+
+GEN_PROPS = ("C02", "C03", "C04", "C05", "C06", "C07", "C11", "C13", "C15", "C16")
+
+
+def crate_dir(ctx):
+    return os.path.join(common.WORK, "gendrv-%s-%d" % (ctx.tier, ctx.seed))
+
+
+def target_dir(ctx):
+    return os.path.join(common.WORK, "target-gendrv-%s" % ctx.tier)
+
+
+def emit(ctx, exclude=()):
+    binary = common.cargo_build("layoutmon", "fastdebug")
+    d = crate_dir(ctx)
+    count = 8 if ctx.quick else 48
+    caps = "0,8" if ctx.quick else "0,1,8"
+    cmd = [binary, "emit", "--seed", str(ctx.seed), "--count", str(count), "--out-dir", d, "--caps", caps]
+    if exclude:
+        cmd += ["--exclude", ",".join(sorted(exclude))]
+    with common.Lock("gendrv-emit"):
+        rc, out, err = common.sh(cmd, timeout=600)
+    if rc != 0:
+        raise Inconclusive("emitter failed: %s" % (err or "")[-500:])
+    return d, json.load(open(os.path.join(d, "manifest.json")))
+
+
+def failing_modules(stderr):
+    """Modules whose *generated* text (mK.rs) the compiler rejects, with the first error each."""
+    bad = {}
+    lines = (stderr or "").splitlines()
+    last_err = ""
+    for l in lines:
+        if l.startswith("error"):
+            last_err = l.strip()
+        m = re.search(r"--> src/m(\d+)\.rs:(\d+)", l)
+        if m and last_err:
+            bad.setdefault("m" + m.group(1), "%s (src/m%s.rs:%s)" % (last_err, m.group(1), m.group(2)))
+    return bad
+
+
+def build(ctx, d, profile, hooks, check_only=False):
+    cmd = ["cargo", "check" if check_only else "build", "--offline"]
+    if profile == "release":
+        cmd.append("--release")
+    if hooks:
+        cmd += ["--features", "hooks"]
+    env = dict(common.ENV)
+    env["CARGO_TARGET_DIR"] = target_dir(ctx)
+    with common.Lock("gendrv-build-%s" % ctx.tier):
+        rc, out, err = common.sh(cmd, cwd=d, env=env, timeout=3600)
+    return rc, err, os.path.join(target_dir(ctx), "release" if profile == "release" else "debug", "gendrv")
+
+
+def prepare(ctx, combos):
+    """Emits the crate and builds the requested (profile, hooks) combinations. Modules whose
+    generated text does not compile are reported (C13) and excluded so that the other
+    properties can still be decided on the rest. Returns (dir, manifest, {combo: binary})."""
+    exclude = {}
+    for attempt in range(4):
+        d, manifest = emit(ctx, exclude=exclude.keys())
+        for m in manifest["modules"]:
+            if m["status"] != "emitted" and not m["status"].startswith("excluded"):
+                # the builder or the generator refused / panicked on a definition of the sample
+                ctx.gen_failures.append(m)
+        binaries = {}
+        failed = None
+        for (profile, hooks) in combos:
+            rc, err, binary = build(ctx, d, profile, hooks)
+            if rc != 0:
+                failed = err
+                break
+            binaries[(profile, hooks)] = binary
+        if failed is None:
+            ctx.excluded_modules = exclude
+            return d, manifest, binaries
+        bad = failing_modules(failed)
+        if not bad:
+            tail = "\n".join((failed or "").splitlines()[-30:])
+            raise Inconclusive("the generated-driver crate does not build and no generated module is to blame:\n%s" % tail)
+        exclude.update(bad)
+    raise Inconclusive("generated-driver crate still failing after excluding %s" % sorted(exclude))
+
+
+def absorb(ctx, rep, label, pid):
+    ctx.merge_counters(rep.get("counters", {}), label + ".")
+    ctx.distinct += rep.get("distinct", {}).get(pid, 0)
+    ctx.evaluations += rep.get("counters", {}).get("episodes", 0)
+    for s in rep.get("samples", []):
+        if len(ctx.samples) < 6:
+            ctx.samples.append("[%s] %s" % (label, s))
+    ctx.functions_covered.update(rep.get("functions_covered", []))
+    listed = 0
+    for f in rep.get("findings", []):
+        if f["property"] != pid:
+            ctx.count("findings_of_other_properties_seen.%s" % f["property"], 1)
+            continue
+        listed += 1
+        hist = ctx.module_history.get(f["module"], "")
+        sig = "%s %s %s | %s" % (pid, f["kind"], re.sub(r"0x[0-9a-f]+|\d{3,}", "#", f["detail"])[:200], hist)
+        ctx.violation(f["kind"], "[%s] %s | module %s cap %s episode %s | definition: %s" % (label, f["detail"], f["module"], f["cap"], f["episode"], hist),
+                      sig, {"engine": "gendrv", "run": label, "module": f["module"], "cap": f["cap"], "episode": f["episode"], "ops": f["ops"], "definition": hist,
+                            "replay_args": "--seed %d --replay %s:%s:%s" % (ctx.seed, f["module"], f["cap"], f["episode"]), "crate": crate_dir(ctx)})
+
+
+def run_native(ctx, binary, label, pid, episodes, max_ops, nshards=12, extra=()):
+    jobs = []
+    for s in range(nshards):
+        jobs.append(("%s-%d" % (label, s), [binary, "--seed", str(ctx.seed), "--episodes", str(episodes), "--max-ops", str(max_ops),
+                                          "--shard", str(s), "--nshards", str(nshards), "--quiet-panics"] + list(extra), None, None))
+    for (lab, rc, out, err, secs) in ctx.run_parallel(jobs, 3600):
+        rep = common.parse_json_tail(out)
+        if rc is None:
+            ctx.inconclusive.append("driver run %s timed out" % lab)
+        elif rc != 0 or rep is None:
+            # the drivers never abort by themselves; the recognised aborts are events
+            text = (err or "")[-1500:]
+            hook = [l for l in (err or "").splitlines() if l.startswith("VERIF-HOOK-EVENT")][-3:]
+            if "misaligned pointer dereference" in text:
+                for p in ("C07", "C02"):
+                    if pid == p:
+                        ctx.violation("misaligned-pointer-dereference", "[%s] the debug build aborted: misaligned pointer dereference; last hook events: %s" % (lab, hook),
+                                      "%s misaligned-pointer-dereference %s" % (pid, " ".join(hook[-1:])[:200]), {"stderr": text, "cmd": " ".join(jobs[0][1])})
+                if pid not in ("C07", "C02"):
+                    ctx.inconclusive.append("driver run %s aborted (misaligned pointer dereference: a C07 event)" % lab)
+            else:
+                if pid in ("C04", "C05", "C06", "C07"):
+                    ctx.violation("driver-crashed", "[%s] the driver died with status %s: %s" % (lab, rc, text[-400:]),
+                                  "%s driver-crashed %s" % (pid, label), {"stderr": text})
+                else:
+                    ctx.inconclusive.append("driver run %s died with status %s" % (lab, rc))
+        else:
+            absorb(ctx, rep, label, pid)
+
+
+def run_miri(ctx, d, label, pid, flags, episodes, max_ops, modules, nshards=16, extra=()):
+    env = dict(common.ENV)
+    env["MIRIFLAGS"] = flags
+    env["CARGO_TARGET_DIR"] = target_dir(ctx)
+    with common.Lock("gendrv-build-%s" % ctx.tier):
+        rc, out, err = common.sh(["cargo", "+nightly", "miri", "run", "--offline", "-q", "--", "--episodes", "0", "--modules", "none"], cwd=d, env=env, timeout=3600)
+    if rc != 0:
+        raise Inconclusive("Miri build of the generated-driver crate failed: %s" % "\n".join((err or "").splitlines()[-15:]))
+    jobs = []
+    for s in range(nshards):
+        args = ["--seed", str(ctx.seed), "--episodes", str(episodes), "--max-ops", str(max_ops), "--shard", str(s), "--nshards", str(nshards),
+                "--quiet-panics", "--readback-every", "2"] + list(extra)
+        if modules:
+            args += ["--modules", ",".join(modules)]
+        jobs.append((" ".join(args), ["cargo", "+nightly", "miri", "run", "--offline", "-q", "--"] + args, d, env))
+    clean = 0
+    for (lab, rc, out, err, secs) in ctx.run_parallel(jobs, 5400):
+        finding = common.classify_miri(err)
+        rep = common.parse_json_tail(out)
+        if rc is None:
+            ctx.inconclusive.append("Miri run `%s` timed out" % lab)
+            continue
+        if finding and finding[0] != "unsupported":
+            kind, line, frame = finding
+            # what Miri reports is memory safety of generated code + runtime: C07; leaks and
+            # double frees are C06 matters as well
+            mine = pid == "C07" or (pid == "C06" and (kind == "leak" or "free" in line or "dangling" in line)) or (pid in ("C15", "C16") and label.endswith(pid))
+            if mine:
+                ctx.violation("miri-" + kind, "[%s] %s | %s | run: %s" % (label, line, frame, lab),
+                              "%s miri %s %s" % (pid, common.norm_miri(line)[:160], re.sub(r":\d+:\d+", "", frame)[:160]),
+                              {"cmd": "cd %s && MIRIFLAGS='%s' cargo +nightly miri run -- %s" % (d, flags, lab), "stderr": (err or "")[-4000:]})
+            else:
+                ctx.inconclusive.append("Miri reported `%s` (a C07 matter) in run `%s`" % (line[:120], lab))
+            continue
+        if rc != 0 or rep is None:
+            ctx.inconclusive.append("Miri run `%s` ended with status %s without a report: %s" % (lab, rc, (err or "")[-300:]))
+            continue
+        clean += 1
+        absorb(ctx, rep, label, pid)
+    ctx.count(label + ".processes_clean", clean)
+    ctx.subruns.append({"engine": "gendrv", "interpreter": "Miri " + flags, "processes": nshards, "episodes_per_module_and_capacity": episodes,
+                        "max_operations_per_episode": max_ops, "modules": modules or "all"})
+
+
+def run_valgrind(ctx, binary, label, pid, episodes, max_ops):
+    jobs = []
+    nsh = 8
+    for s in range(nsh):
+        jobs.append(("vg-%d" % s, ["valgrind", "-q", "--error-exitcode=9", "--leak-check=full", "--errors-for-leak-kinds=definite,indirect", binary,
+                                   "--seed", str(ctx.seed), "--episodes", str(episodes), "--max-ops", str(max_ops), "--shard", str(s), "--nshards", str(nsh), "--quiet-panics"], None, None))
+    clean = 0
+    for (lab, rc, out, err, secs) in ctx.run_parallel(jobs, 5400):
+        rep = common.parse_json_tail(out)
+        if rc is None:
+            ctx.inconclusive.append("valgrind run %s timed out" % lab)
+        elif rc == 9 or "== Invalid" in (err or "") or "definitely lost" in (err or ""):
+            first = [l for l in (err or "").splitlines() if "Invalid" in l or "lost" in l or "free" in l][:1]
+            if pid in ("C06", "C07"):
+                ctx.violation("memcheck", "[%s] %s" % (label, first[0] if first else "memcheck error"), "%s memcheck %s" % (pid, (first[0] if first else "")[12:140]),
+                              {"stderr": (err or "")[-4000:], "cmd": " ".join(jobs[0][1])})
+            else:
+                ctx.inconclusive.append("memcheck reported an error (C06/C07 matter) in %s" % lab)
+        elif rc != 0 or rep is None:
+            ctx.inconclusive.append("valgrind run %s ended with status %s" % (lab, rc))
+        else:
+            clean += 1
+            absorb(ctx, rep, label, pid)
+    ctx.count(label + ".processes_clean", clean)
+    ctx.subruns.append({"engine": "gendrv", "sanitizer": "valgrind memcheck --leak-check=full on the release hooks-off driver", "episodes_per_module_and_capacity": episodes})
+
+
+def init(ctx):
+    ctx.gen_failures = []
+    ctx.functions_covered = set()
+    ctx.module_history = {}
+    ctx.excluded_modules = {}
+
+
+def after_prepare(ctx, manifest, pid):
+    for m in manifest["modules"]:
+        ctx.module_history[m["module"]] = m["history"]
+    emitted = [m for m in manifest["modules"] if m["status"] == "emitted"]
+    ctx.count("generated_modules", len(emitted))
+    ctx.count("generated_lines", sum(m.get("lines", 0) for m in emitted))
+    ctx.count("generated_variants", sum(m.get("variants", 0) for m in emitted))
+    if pid == "C13":
+        for name, err in ctx.excluded_modules.items():
+            hist = ctx.module_history.get(name, "")
+            ctx.violation("generated-module-does-not-compile", "%s: %s | definition: %s" % (name, err, hist),
+                          "C13 compile %s | %s" % (re.sub(r"\d+", "#", err)[:160], hist), {"module": name, "definition": hist, "crate": crate_dir(ctx)})
+        for m in ctx.gen_failures:
+            ctx.violation("definition-not-generated", "%s: %s | definition: %s" % (m["module"], m["status"], m["history"]),
+                          "C13 %s | %s" % (m["status"][:80], m["history"]), {"definition": m["history"]})
+    elif ctx.excluded_modules:
+        ctx.count("modules_excluded_because_they_do_not_compile", len(ctx.excluded_modules))
+
+
+def standard_native(ctx, pid, binaries):
+    episodes = 300 if ctx.quick else 4000
+    max_ops = 40
+    for (profile, hooks), binary in binaries.items():
+        label = "native-%s-hooks-%s" % (profile, "on" if hooks else "off")
+        run_native(ctx, binary, label, pid, episodes, max_ops)
+        ctx.subruns.append({"engine": "gendrv", "build": label, "episodes_per_module_and_capacity": episodes, "max_operations_per_episode": max_ops})
+
+
+def combos(ctx):
+    if ctx.quick:
+        return [("dev", True), ("release", False)]
+    return [("dev", True), ("release", False), ("dev", False), ("release", True)]
+
+
+def finish_coverage(ctx, manifest):
+    ctx.count("generated_functions_executed", len(ctx.functions_covered))
+
+
+def miri_modules(manifest, n):
+    emitted = [m["module"] for m in manifest["modules"] if m["status"] == "emitted"]
+    return emitted[:n]
+
+
+SB = "-Zmiri-symbolic-alignment-check"
+TB = "-Zmiri-symbolic-alignment-check -Zmiri-tree-borrows"
+
+
+def run_generic(ctx):
+    """C04 C05 C06 C16: model / ledger / hook monitors over native builds; interpreters and
+    memcheck in the thorough tier (C06 has a Miri slice in the quick tier too: leak checker)."""
+    pid = ctx.pid
+    init(ctx)
+    d, manifest, binaries = prepare(ctx, combos(ctx))
+    after_prepare(ctx, manifest, pid)
+    standard_native(ctx, pid, binaries)
+    if not ctx.quick:
+        run_miri(ctx, d, "miri-sb", pid, SB, 6, 30, miri_modules(manifest, 40), extra=["--no-serde", "--caps", "0"])
+        if pid in ("C06",):
+            run_valgrind(ctx, binaries[("release", False)], "memcheck", pid, 150, 40)
+    finish_coverage(ctx, manifest)
+
+
+def run_c07(ctx):
+    pid = "C07"
+    init(ctx)
+    d, manifest, binaries = prepare(ctx, combos(ctx))
+    after_prepare(ctx, manifest, pid)
+    standard_native(ctx, pid, binaries)
+    if ctx.quick:
+        run_miri(ctx, d, "miri-sb", pid, SB, 6, 25, miri_modules(manifest, 24), extra=["--no-serde", "--caps", "0"])
+    else:
+        run_miri(ctx, d, "miri-sb", pid, SB, 12, 40, None, extra=["--no-serde"])
+        run_miri(ctx, d, "miri-tb", pid, TB, 6, 30, miri_modules(manifest, 40), extra=["--no-serde", "--caps", "0"])
+        run_miri(ctx, d, "miri-serde", pid, "", 4, 30, [m["module"] for m in manifest["modules"] if m["status"] == "emitted" and "serde" in m.get("fragments", "")][:24], extra=["--caps", "0"])
+        run_valgrind(ctx, binaries[("release", False)], "memcheck", pid, 150, 40)
+    total = 0
+    finish_coverage(ctx, manifest)
+
+
+def run_c15(ctx):
+    pid = "C15"
+    init(ctx)
+    d, manifest, binaries = prepare(ctx, combos(ctx))
+    after_prepare(ctx, manifest, pid)
+    standard_native(ctx, pid, binaries)
+    if not ctx.quick:
+        serde_mods = [m["module"] for m in manifest["modules"] if m["status"] == "emitted" and "serde" in m.get("fragments", "")]
+        run_miri(ctx, d, "miri-C15", pid, "", 5, 30, serde_mods[:16], extra=["--caps", "0"])
+    finish_coverage(ctx, manifest)
 
 
 def runtime_half(ctx, pid):
-    """Run-time half of C02 / C03 on generated modules (engine B)."""
-    return
+    """Run-time half of C02 / C03 on generated modules."""
+    init(ctx)
+    d, manifest, binaries = prepare(ctx, [("dev", True), ("release", False)] if ctx.quick else combos(ctx))
+    after_prepare(ctx, manifest, pid)
+    standard_native(ctx, pid, binaries)
+    finish_coverage(ctx, manifest)
 
 
 def compile_half(ctx):
-    """Compile half of C13 (engine B build of sampled modules with every fragment selection)."""
-    return
+    """Compile half of C13: every sampled definition with its fragment selection is compiled
+    (debug + release builds of the driver crate), and every definition is additionally
+    type-checked with each of the four fragment selections."""
+    init(ctx)
+    d, manifest, binaries = prepare(ctx, [("dev", True), ("release", False)])
+    after_prepare(ctx, manifest, "C13")
+    # all fragment selections, type-check only
+    binary = common.cargo_build("layoutmon", "fastdebug")
+    d2 = os.path.join(common.WORK, "gencheck-%s-%d" % (ctx.tier, ctx.seed))
+    with common.Lock("gendrv-emit"):
+        rc, out, err = common.sh([binary, "emit", "--seed", str(ctx.seed), "--count", "8" if ctx.quick else "48", "--out-dir", d2, "--all-fragsets", "1"], timeout=900)
+    if rc != 0:
+        raise Inconclusive("emitter (all fragment selections) failed: %s" % (err or "")[-400:])
+    m2 = json.load(open(os.path.join(d2, "manifest.json")))
+    env = dict(common.ENV)
+    env["CARGO_TARGET_DIR"] = target_dir(ctx)
+    with common.Lock("gendrv-build-%s" % ctx.tier):
+        rc, out, err = common.sh(["cargo", "check", "--offline"], cwd=d2, env=env, timeout=3600)
+    hist = {m["module"]: (m["history"], m.get("fragments")) for m in m2["modules"]}
+    checked = len([m for m in m2["modules"] if m["status"] == "emitted"])
+    ctx.count("modules_type_checked_with_every_fragment_selection", checked)
+    ctx.evaluations += checked
+    ctx.distinct += checked
+    for m in m2["modules"]:
+        if m["status"] != "emitted":
+            ctx.violation("definition-not-generated", "%s: %s | definition: %s" % (m["module"], m["status"], m["history"]),
+                          "C13 %s | %s" % (m["status"][:80], m["history"]), {"definition": m["history"]})
+    if rc != 0:
+        bad = failing_modules(err)
+        if not bad:
+            raise Inconclusive("the type-check crate does not build and no generated module is to blame: %s" % "\n".join((err or "").splitlines()[-20:]))
+        for name, e in bad.items():
+            h, frag = hist.get(name, ("", ""))
+            ctx.violation("generated-module-does-not-compile", "%s [%s]: %s | definition: %s" % (name, frag, e, h),
+                          "C13 compile %s | %s | %s" % (re.sub(r"\d+", "#", e)[:160], frag, h), {"module": name, "fragments": frag, "definition": h, "crate": d2})
+    ctx.subruns.append({"engine": "rustc (cargo check)", "modules": checked, "fragment_selections": ["default", "clone", "serde", "clone+serde"]})
+
+
+def replay(path):
+    d = json.load(open(path))
+    print("definition: %s" % d.get("definition"))
+    for o in d.get("ops", []):
+        print("  op: %s" % o)
+    print("re-run the episode: (cd %s && cargo run --features hooks -- %s)" % (d.get("crate"), d.get("replay_args")))
+    if d.get("crate") and d.get("replay_args") and os.path.isdir(d["crate"]):
+        env = dict(common.ENV)
+        env["CARGO_TARGET_DIR"] = os.path.join(common.WORK, "target-gendrv-" + d.get("tier", "quick"))
+        rc, out, err = common.sh(["cargo", "run", "--offline", "-q", "--features", "hooks", "--"] + d["replay_args"].split() + ["--quiet-panics"], cwd=d["crate"], env=env, timeout=1800)
+        rep = common.parse_json_tail(out)
+        n = 0
+        for f in (rep or {}).get("findings", []):
+            if f["property"] == d["property"]:
+                n += 1
+                print("VIOLATION property=%s kind=%s %s" % (f["property"], f["kind"], f["detail"]))
+        return 1 if n else 0
+    return 0
+
+
+ASSUME = ["the episode interpreter's reference model (field -> value id) and the ledger state the contract of the generated API correctly",
+          "definitions are sampled: shape-directed ones plus seeded random ones over a 31-type palette; field names are f<n>-style identifiers",
+          "integer-typed may-be-uninitialised fields are always written before any operation reads them (reading them unwritten is outside the properties); MaybeUninit<u64> fields exercise the stays-unwritten path",
+          "Miri executes unoptimised MIR; optimised builds are covered by the model, the ledger, the hook and memcheck"]
+
+RULE_B = ("cases = episodes: seeded operation sequences (construct in 4 forms, write, convert in 4 forms, unpack, drop, move between stack / Box / Vec / repr(C) slot placements, "
+          "clone / clone_from / clone with injected panic, serialise / deserialise incl. malformed input, in-place conversion of a vector of records) on every variant of every sampled module, "
+          "for the published capacity and larger ones, in debug and release builds with the hooks on and off; distinct by FNV-64 of (module, capacity, operation list); non-trivial = ")
+
+CHECKS = {
+    "C04": {"run": run_generic, "replay": replay, "level": "exploration", "assumptions": ASSUME,
+            "rule": RULE_B + "the episode constructs a record and writes through a mutable accessor; every operation is followed by a read-back of every written field of every live record"},
+    "C05": {"run": run_generic, "replay": replay, "level": "exploration", "assumptions": ASSUME,
+            "rule": RULE_B + "the episode contains a conversion to the next variant or an in-place vector conversion (conversions whose removed and added fields share bytes are counted separately)"},
+    "C06": {"run": run_generic, "replay": replay, "level": "exploration", "assumptions": ASSUME,
+            "rule": RULE_B + "a droppable value was stored and the record then went through a conversion, an unpack or a drop; oracle = births/deaths ledger closed at the end of every episode + drop counters of zero-size values + hook shadow"},
+    "C07": {"run": run_c07, "replay": replay, "level": "exploration", "assumptions": ASSUME,
+            "rule": RULE_B + "at least 2 operations; oracles = Miri (symbolic alignment check, Stacked Borrows; Tree Borrows and memcheck in the thorough tier) on hooks-off drivers, the verif-hooks shadow (bounds, alignment of loads and references, type/ownership of droppable spans) on native debug and release drivers, the compiler's misaligned-pointer-dereference check in debug builds"},
+    "C15": {"run": run_c15, "replay": replay, "level": "fault_enumeration", "assumptions": ASSUME,
+            "rule": RULE_B + "the episode serialises a record (JSON text and bincode compared with a declaration-order model) and deserialises either its own encoding (from_str, from_value, bincode) or a malformed one (k-element prefix, undecodable element at position k, one extra element, truncated bincode) with k drawn per case; rejected inputs must leave the ledger population unchanged"},
+    "C16": {"run": run_generic, "replay": replay, "level": "exploration", "assumptions": ASSUME,
+            "rule": RULE_B + "the episode clones a record (clone, clone_from, or a clone with a panic injected at the k-th instrumented field clone, k drawn per case); source and copy are both read back after every later operation"},
+}
